@@ -64,6 +64,8 @@ type exec struct {
 	floatMag     uint
 	floatRel     bool
 	roundMemo    map[*smt.Term]*smt.Term
+	varsMemo     map[*smt.Term]map[*smt.Term]struct{}
+	noSlice      bool
 	floatErrVars int
 
 	known    []knownRegion
@@ -148,12 +150,127 @@ func (x *exec) abandon(why string) {
 // it were already decided by the run that created this prefix).
 func (x *exec) checking() bool { return len(x.decisions) >= len(x.prefix) }
 
+// termVars: the free variables of t (memoised per path).
+func (x *exec) termVars(t *smt.Term) map[*smt.Term]struct{} {
+	if x.varsMemo == nil {
+		x.varsMemo = map[*smt.Term]map[*smt.Term]struct{}{}
+	}
+	if v, ok := x.varsMemo[t]; ok {
+		return v
+	}
+	var out map[*smt.Term]struct{}
+	if t.Op == "var" {
+		out = map[*smt.Term]struct{}{t: {}}
+	} else {
+		for _, a := range t.Args {
+			av := x.termVars(a)
+			if len(av) == 0 {
+				continue
+			}
+			if out == nil {
+				if len(t.Args) == 1 {
+					out = av
+					break
+				}
+				out = make(map[*smt.Term]struct{}, len(av))
+			}
+			for k := range av {
+				out[k] = struct{}{}
+			}
+		}
+	}
+	x.varsMemo[t] = out
+	return out
+}
+
+// sliceFor splits the path condition into the conjuncts that share variables (transitively)
+// with q and the rest. The rest is satisfiable whenever the path is feasible and is
+// variable-disjoint from the slice, so pc AND q is satisfiable iff slice AND q is.
+func (x *exec) sliceFor(q *smt.Term) (slice, rest []*smt.Term) {
+	n := len(x.pc)
+	byVar := map[*smt.Term][]int{}
+	for i, c := range x.pc {
+		for v := range x.termVars(c) {
+			byVar[v] = append(byVar[v], i)
+		}
+	}
+	sel := make([]bool, n)
+	seenVar := map[*smt.Term]bool{}
+	var work []*smt.Term
+	for v := range x.termVars(q) {
+		seenVar[v] = true
+		work = append(work, v)
+	}
+	for len(work) > 0 {
+		v := work[len(work)-1]
+		work = work[:len(work)-1]
+		for _, i := range byVar[v] {
+			if sel[i] {
+				continue
+			}
+			sel[i] = true
+			for w := range x.termVars(x.pc[i]) {
+				if !seenVar[w] {
+					seenVar[w] = true
+					work = append(work, w)
+				}
+			}
+		}
+	}
+	for i, c := range x.pc {
+		if sel[i] {
+			slice = append(slice, c)
+		} else if len(x.termVars(c)) > 0 {
+			rest = append(rest, c)
+		} else if c.IsConst() && !c.B {
+			slice = append(slice, c)
+		}
+	}
+	return
+}
+
 func (x *exec) query(extra *smt.Term, model bool) (smt.Result, *smt.Model) {
-	terms := append(append([]*smt.Term(nil), x.pc...), extra)
+	var terms, rest []*smt.Term
+	if x.noSlice {
+		terms = append(append([]*smt.Term(nil), x.pc...), extra)
+	} else {
+		terms, rest = x.sliceFor(extra)
+		terms = append(terms, extra)
+	}
 	r, m, err := x.solver.Check(terms, model)
 	if err != nil {
 		x.notes = append(x.notes, "solver error: "+err.Error())
 		return smt.Unknown, nil
+	}
+	if model && r == smt.Sat && len(rest) > 0 {
+		// values for the variables outside the slice
+		r2, m2, err := x.solver.Check(rest, true)
+		if err != nil || r2 != smt.Sat || m2 == nil {
+			if r2 == smt.Unsat {
+				return smt.Unsat, nil
+			}
+			return smt.Unknown, nil
+		}
+		// merge into a fresh model (solver results are cached and shared between paths)
+		mm := &smt.Model{Ints: map[string]*big.Int{}, Reals: map[string]*big.Rat{}, Strs: map[string]string{}, Bools: map[string]bool{}}
+		for _, src := range []*smt.Model{m2, m} {
+			if src == nil {
+				continue
+			}
+			for k, v := range src.Ints {
+				mm.Ints[k] = v
+			}
+			for k, v := range src.Reals {
+				mm.Reals[k] = v
+			}
+			for k, v := range src.Strs {
+				mm.Strs[k] = v
+			}
+			for k, v := range src.Bools {
+				mm.Bools[k] = v
+			}
+		}
+		m = mm
 	}
 	return r, m
 }
